@@ -1,0 +1,120 @@
+package values
+
+import (
+	"fmt"
+	"reflect"
+	"strings"
+)
+
+// Sprint formats a value as fmt.Sprint does, except that a pointer anywhere inside
+// it is formatted as the value it points to. fmt prints such a pointer as its
+// address, which made rendered output and error messages depend on where the
+// bindings happen to live in memory. (A pointer that is itself the value has
+// always been treated as what it points to; see ValueOf.)
+func Sprint(value any) string {
+	rv := reflect.ValueOf(value)
+	if held, ok := value.(reflect.Value); ok {
+		// like fmt, print the value that a reflect.Value holds
+		rv = held
+	}
+	if !holdsPointer(rv, 0) {
+		return fmt.Sprint(value)
+	}
+	var sb strings.Builder
+	sprint(&sb, rv, 0)
+	return sb.String()
+}
+
+const sprintDepth = 32 // gives up on cyclic data
+
+func holdsPointer(rv reflect.Value, depth int) bool {
+	if depth > sprintDepth {
+		return false
+	}
+	switch rv.Kind() {
+	case reflect.Ptr:
+		return !rv.IsNil()
+	case reflect.Interface:
+		return !rv.IsNil() && holdsPointer(rv.Elem(), depth+1)
+	case reflect.Slice, reflect.Array:
+		for i := 0; i < rv.Len(); i++ {
+			if holdsPointer(rv.Index(i), depth+1) {
+				return true
+			}
+		}
+	case reflect.Map:
+		for it := rv.MapRange(); it.Next(); {
+			if holdsPointer(it.Key(), depth+1) || holdsPointer(it.Value(), depth+1) {
+				return true
+			}
+		}
+	case reflect.Struct:
+		for i := 0; i < rv.NumField(); i++ {
+			if holdsPointer(rv.Field(i), depth+1) {
+				return true
+			}
+		}
+	}
+	return false
+}
+
+// sprint writes rv in fmt's %v form, following pointers.
+func sprint(sb *strings.Builder, rv reflect.Value, depth int) {
+	if depth > sprintDepth {
+		sb.WriteString("...")
+		return
+	}
+	if rv.IsValid() && rv.Kind() != reflect.Ptr && rv.Kind() != reflect.Interface && rv.CanInterface() {
+		// as fmt does, a value that knows how to print itself does
+		switch v := rv.Interface().(type) {
+		case error:
+			sb.WriteString(v.Error())
+			return
+		case fmt.Stringer:
+			sb.WriteString(v.String())
+			return
+		}
+	}
+	switch rv.Kind() {
+	case reflect.Invalid:
+		sb.WriteString("<nil>")
+	case reflect.Ptr, reflect.Interface:
+		if rv.IsNil() {
+			sb.WriteString("<nil>")
+			return
+		}
+		sprint(sb, rv.Elem(), depth+1)
+	case reflect.Slice, reflect.Array:
+		sb.WriteByte('[')
+		for i := 0; i < rv.Len(); i++ {
+			if i > 0 {
+				sb.WriteByte(' ')
+			}
+			sprint(sb, rv.Index(i), depth+1)
+		}
+		sb.WriteByte(']')
+	case reflect.Map:
+		sb.WriteString("map[")
+		for i, k := range SortedMapKeys(rv) {
+			if i > 0 {
+				sb.WriteByte(' ')
+			}
+			sprint(sb, k, depth+1)
+			sb.WriteByte(':')
+			sprint(sb, rv.MapIndex(k), depth+1)
+		}
+		sb.WriteByte(']')
+	case reflect.Struct:
+		sb.WriteByte('{')
+		for i := 0; i < rv.NumField(); i++ {
+			if i > 0 {
+				sb.WriteByte(' ')
+			}
+			sprint(sb, rv.Field(i), depth+1)
+		}
+		sb.WriteByte('}')
+	default:
+		// fmt prints the value a reflect.Value holds
+		fmt.Fprint(sb, rv)
+	}
+}
